@@ -416,6 +416,7 @@ TIES = {
             ('SrcTn.v', ['PyPrelude', 'PgmState', 'TnState', 'SrcTn', 'EquivTn'], 'EquivTn')],
     'C16': [('SrcDev.v', ['PyPrelude', 'PgmState', 'AeState', 'SrcAe', 'EquivAe', 'DevState', 'SrcDev', 'EquivDev'], ['EquivAe', 'EquivDev']),
             ('SrcHl.v', ['PyPrelude', 'PgmState', 'AeState', 'SrcHl', 'EquivHl'], 'EquivHl')],
+    'C10': ('SrcAp.v', ['PyPrelude', 'PgmState', 'NpState', 'SrcAp', 'EquivAp'], 'EquivAp'),
     'C11': ('SrcUf.v', ['PyPrelude', 'PgmState', 'NpState', 'SrcUf', 'EquivUf'], 'EquivUf'),
     'C14': ('SrcMk.v', ['PyPrelude', 'PgmState', 'MkState', 'SrcMk', 'EquivMk'], 'EquivMk'),
     'C18': ('SrcSs.v', ['PyPrelude', 'PgmState', 'SsState', 'SrcSs', 'EquivSs'], 'EquivSs'),
